@@ -98,11 +98,17 @@ def run(chk):
         "eigenvectors of a non-symmetric matrix are not orthogonal",
         "restarts are observed on the solver's own iteration log (search-space "
         "column); the count is a lower bound",
+        "clustered spectra in the randomised part: the 'lowest' clause is "
+        "judged up to the width of one cluster (which member of a cluster "
+        "with spacing ~20 x tol is returned is judged on a fixed instance "
+        "under davidson/cluster-neighbour-root-returned); admitted that way "
+        "after the soak (1 of ~20000 solves returned the second member)",
         "randomised matrices are dense (no structural zeros) and the basis "
         "is kept within the dimension; the three situations excluded by that "
         "are judged on fixed deterministic instances under their own keys "
         "davidson/decoupled-block-lowest-root-missed, davidson/search-space-"
-        "exceeds-dimension, davidson/olsen-ritz-value-equals-diagonal-element",
+        "exceeds-dimension, davidson/olsen-ritz-value-equals-diagonal-element, "
+        "davidson/gram-schmidt-loses-orthogonality (smooth 1/(j-i)^2 coupling)",
     ]
 
 
